@@ -3,6 +3,7 @@ import DigModel.Proofs.Termination
 import DigModel.Proofs.Views
 import DigModel.Proofs.GhBoundApi
 import DigModel.Proofs.GraphMeaningThm
+import DigModel.Proofs.ProvideStages
 /-
   C05 — Cycle safety, graph part (internal/graph/graph.go, full strength, any graph size):
 
@@ -46,6 +47,13 @@ import DigModel.Proofs.GraphMeaningThm
     a parameter depends on *every* visible provider of its key — then `graph.IsAcyclic` of `s`'s holder answers
     `cycle`; so a Provide that closes such a cycle in the target or any descendant is rejected, and an Invoke
     from an unverified scope that sees one fails before anything runs;
+  * `C05_provide_closing_a_cycle_fails` (**any reachable container, any Provide**): without DeferAcyclicVerification, if
+    in the container with the new constructor registered (`provideRegister`: `apiProvide` with its stages named,
+    `apiProvide_eq` by `rfl`) the target scope or *any of its descendants* sees a dependency cycle among constructors,
+    the Provide returns an error with `IsCycleDetected` and the container is rolled back (equal to the one before,
+    up to the `isVerifiedAcyclic` flags);
+  * `C05_invoke_seeing_a_cycle_fails`: an Invoke from a scope not verified yet (DeferAcyclicVerification) that sees a
+    dependency cycle fails with such an error, with no event at all: nothing is built, nothing runs;
   * `C05_acyclic_answer_excludes_dependency_cycles`: conversely an "acyclic" answer for `s` means there is no such cycle.
   Edges through value groups are part of the holder graph (`edgesFrom`) and of the graph-level theorems above but
   not yet of the constructor-level reading `DependsOn`; the converse direction (every edge of the holder is a
@@ -158,6 +166,28 @@ theorem C05_acyclic_answer_excludes_dependency_cycles (p : Program) (s : Nat) (h
   obtain ⟨path, hp⟩ := C05_dependency_cycle_is_found p s hs a l hl hin hc hclosed
   rw [hp] at hacyc; cases hacyc
 
+theorem C05_provide_closing_a_cycle_fails (p : Program) (hd : p.cfg.deferAcyclic = false) (fn : Fn) (i s : Nat) (o : ProvideOpts)
+    (target : Nat) (params : List Param) (results : List RSlot) (n : Nat) (w : St)
+    (hreg : provideRegister p.ctx fn (runProgram p).1 i s o = .ok (target, params, results, n, w))
+    (sc : Nat) (hsc : sc ∈ (runProgram p).1.subscopes target) (hlt : sc < (runProgram p).1.scopes.length)
+    (a : Nat) (l : List Nat) (hl : l ≠ []) (hin : ∀ m ∈ a :: l, GNode.ctor m ∈ (w.scope sc).gh)
+    (hc : DepChain w sc (a :: l)) (hclosed : (a :: l).getLast (by simp) = a) :
+    ∃ e, (apiProvide p.ctx fn (runProgram p).1 i s o).2.v = .err e ∧ e.isCycleDetected = true ∧
+      EqButVerified (runProgram p).1 (apiProvide p.ctx fn (runProgram p).1 i s o).1 :=
+  provide_rejects_dependency_cycle (gt_program p) (program_safeInv p).ob p.ctx hd fn i s o target params results n w hreg
+    sc hsc hlt a l hl hin hc hclosed
+
+theorem C05_invoke_seeing_a_cycle_fails (p : Program) (fn : Fn) (s : Nat) (info : Bool) (hnf : fn.nonfunc = none)
+    (params : List Param) (w : St) (hpp : parseParams p.types (runProgram p).1 s fn = (.ok params, w))
+    (hsh : (shallowCheck s params w).1 = .ok ()) (hunv : (w.scope s).verified = false)
+    (hs : s < (runProgram p).1.scopes.length) (a : Nat) (l : List Nat) (hl : l ≠ [])
+    (hin : ∀ m ∈ a :: l, GNode.ctor m ∈ (w.scope s).gh) (hc : DepChain w s (a :: l))
+    (hclosed : (a :: l).getLast (by simp) = a) :
+    ∃ e, (apiInvoke p.ctx fn (runProgram p).1 s info).2.v = .err e ∧ e.isCycleDetected = true ∧
+      (apiInvoke p.ctx fn (runProgram p).1 s info).2.ev = [] :=
+  invoke_rejects_dependency_cycle (gt_program p) (program_safeInv p).ob p.ctx fn s info hnf params w hpp hsh hunv hs
+    a l hl hin hc hclosed
+
 /-- every constructor visible from a scope is a node of that scope's holder (whole programs) -/
 theorem C05_visible_providers_are_nodes (p : Program) (s : Nat) (hs : s < (runProgram p).1.scopes.length) (k : Key) (m : Nat)
     (hm : m ∈ (runProgram p).1.allProviders s k) : GNode.ctor m ∈ ((runProgram p).1.scope s).gh :=
@@ -167,6 +197,8 @@ theorem C05_visible_providers_are_nodes (p : Program) (s : Nat) (hs : s < (runPr
 example (st : St) (s n : Nat) (h : DependsOn st s n n) : DepChain st s [n, n] ∧ [n, n].getLast (by simp) = n :=
   ⟨⟨h, trivial⟩, rfl⟩
 
+#print axioms C05_provide_closing_a_cycle_fails
+#print axioms C05_invoke_seeing_a_cycle_fails
 #print axioms C05_dependency_cycle_is_found
 #print axioms C05_acyclic_answer_excludes_dependency_cycles
 #print axioms C05_visible_providers_are_nodes
